@@ -10,6 +10,7 @@
 //        m <map#|-1|-2> g <targetClient> k <code#|-1|-2> d <dom#|-1|-2>
 //        W conns <n> (<N|U|A><clientID>)* maps <n> (<listen>:<target>:<s|t>:<a|i>)*
 //          codes <n> (<target>:<0|1>)* doms <n> (<owner>)*
+//        (first token `x` instead of `c`: excluded point of the model comparison, see ambiguousDefaultTarget)
 // obs:   <run> ~ <run>     first run: the packet as given; second run: the same packet with
 //        SenderId/ReceiverId/Token zeroed, in a fresh identical world
 //   run = ret <0|1> rsp <n|o|f> view <refs|-> chg <refs|-> dlv <conn#:cmdType:sender,…|-> gone <conn#,…|->
@@ -510,7 +511,12 @@ func (w *world) body(k *kase) string {
 	case packet.HTTPProxyResponse:
 		return `{"request_id":"no-such-request","status_code":200}`
 	}
-	return `{}`
+	// any other command type (not in the model's table): a generic body naming every kind of object, so that a
+	// handler added for it later and reading any of these fields has something to act on
+	return j(map[string]any{"mapping_id": mid, "target_client_id": k.g, "code": code, "listen_address": "127.0.0.1:9100",
+		"target_address": "tcp://10.0.0.9:443", "bytes_sent": 1000, "bytes_received": 500, "subdomain": sub,
+		"base_domain": "tunnox.net", "target_url": "http://10.0.0.4:8080", "domain": "example.test", "query_id": "q1",
+		"tunnel_id": "tun-verif", "type": 1, "payload": "{}"})
 }
 
 func clientIDs(k *kase) []int64 {
@@ -692,6 +698,9 @@ func execCase(out *vc.Out, caseStr string) {
 		sp := strings.SplitN(caseStr, " ", 2)
 		key, caseStr = sp[0]+" ", sp[1]
 	}
+	if strings.HasPrefix(caseStr, "x ") {
+		caseStr = "c " + caseStr[2:]
+	}
 	k, err := parseCase(caseStr)
 	if err != nil {
 		out.Case(key+caseStr, "bad-case", "")
@@ -699,10 +708,36 @@ func execCase(out *vc.Out, caseStr string) {
 	}
 	a := runOnce(k, true)
 	b := a
+	if ambiguousDefaultTarget(k) {
+		// excluded point of the correspondence: which of several default DNS targets is used depends on Go's map
+		// iteration order inside GetClientPortMappings; the case is marked `x`, judged by the property predicate
+		// only, and not run a second time (two runs may legitimately differ)
+		out.Count("excluded-point:ambiguous-default-dns-target")
+		out.Case(key+"x "+caseStr[2:], a+" ~ "+b, caseStr)
+		return
+	}
 	if k.snd != "0" || k.rcv != "0" || k.tok != "-" {
 		b = runOnce(k, false)
 	}
 	out.Case(key+caseStr, a+" ~ "+b, caseStr)
+}
+
+func ambiguousDefaultTarget(k *kase) bool {
+	ct := packet.CommandType(k.ctype)
+	if (ct != packet.DNSResolve && ct != packet.DNSQuery) || k.resp || k.g > 0 || k.bad {
+		return false
+	}
+	c := k.conns[k.from]
+	if c.kind != 'A' || c.cid == 0 {
+		return false
+	}
+	targets := map[int64]bool{}
+	for _, m := range k.maps {
+		if (m.listen == c.cid || m.target == c.cid) && m.socks && m.active && m.target > 0 {
+			targets[m.target] = true
+		}
+	}
+	return len(targets) > 1
 }
 
 // ---------------------------------------------------------------- generators
@@ -752,7 +787,7 @@ func gen(out *vc.Out, r *vc.Rand, thorough bool) {
 	}
 	claims := []claim{{0, 0, "-"}, {A, B, "1001"}, {B, A, "1002"}}
 	if thorough {
-		claims = append(claims, claim{S, 0, "x"}, claim{0, A, "-"}, claim{A, A, "1001"})
+		claims = append(claims, claim{S, 0, "x"}, claim{0, A, "-"}, claim{A, A, "1001"}, claim{4242, -7, "0"}, claim{0, 0, "1002"})
 	}
 	// 1. exhaustive: command type x identity x claimed fields x target object
 	for _, ct := range allTypes() {
@@ -772,6 +807,9 @@ func gen(out *vc.Out, r *vc.Rand, thorough bool) {
 							if resp && !(ct == int(packet.DNSResolve) || ct == int(packet.DNSQuery) || ct == int(packet.HTTPProxyResponse)) && (cl.snd != 0 || o != 0) {
 								continue // response-typed packets of other commands: one representative each
 							}
+							if !usesTarget(ct) && !resp {
+								g = B // generic probe: name a target client even where the model's table has no use for it
+							}
 							execCase(out, caseStr(ct, resp, from, cl.snd, cl.rcv, cl.tok, false, o, g, o, o, std))
 							out.Count(fmt.Sprintf("matrix:id=%s", conns[from][:1]))
 						}
@@ -783,10 +821,57 @@ func gen(out *vc.Out, r *vc.Rand, thorough bool) {
 			out.Count("matrix:bad-body")
 		}
 	}
+	// 1b. exhaustive small scope: one object, every ownership (parties from {A, B, S, 0}) x every identity class
+	//     x target online or not, for the commands whose rule is "party" (and the DNS default-target path)
+	owners := []int64{A, B, S, 0}
+	for _, ct := range []int{75, 76, 110, 90, 120} {
+		for _, l := range owners {
+			for _, t := range owners {
+				for _, online := range []bool{true, false} {
+					cs := []string{"A1001", "A1003", "U0", "N0"}
+					if online {
+						cs = append(cs, "A1002")
+					}
+					for from := 0; from < 4; from++ {
+						for _, act := range []string{"a", "i"} {
+							if act == "i" && ct != 120 {
+								continue
+							}
+							w := worldStr(cs, []string{fmt.Sprintf("%d:%d:s:%s", l, t, act)}, nil, nil)
+							g := int64(-1)
+							execCase(out, caseStr(ct, false, from, 0, 0, "-", false, 0, g, 0, 0, w))
+							if thorough {
+								execCase(out, caseStr(ct, false, from, l, t, fmt.Sprint(l), false, 0, g, 0, 0, w))
+							}
+							out.Count("small-scope:mapping-ownership")
+						}
+					}
+				}
+			}
+		}
+	}
+	for _, ct := range []int{72, 86, 85} {
+		for _, o := range owners {
+			for _, st := range []int{0, 1} {
+				for from := 0; from < 4; from++ {
+					cs := []string{"A1001", "A1003", "U0", "N0"}
+					w := worldStr(cs, nil, []string{fmt.Sprintf("%d:%d", o, st)}, []string{fmt.Sprint(o)})
+					if o == 0 {
+						w = worldStr(cs, nil, []string{fmt.Sprintf("%d:%d", B, st)}, []string{fmt.Sprint(B)})
+					}
+					execCase(out, caseStr(ct, false, from, 0, 0, "-", false, 0, 0, 0, 0, w))
+					if thorough {
+						execCase(out, caseStr(ct, false, from, o, o, fmt.Sprint(o), false, 0, 0, 0, 0, w))
+					}
+					out.Count("small-scope:code-domain-ownership")
+				}
+			}
+		}
+	}
 	// 2. random worlds: random casts, ownership, online sets
-	rounds := 300
+	rounds := 400
 	if thorough {
-		rounds = 6000
+		rounds = 40000
 	}
 	ids := []int64{A, B, S, 1004}
 	interesting := []int{11, 50, 70, 71, 72, 74, 75, 76, 81, 85, 86, 87, 90, 102, 110, 120, 121}
